@@ -28,11 +28,17 @@ func TestC12(t *testing.T) {
 		timeout := time.Duration(rapid.SampledFrom([]int{1, 15, 60}).Draw(t, "timeoutSec")) * time.Second
 		deadline := rapid.SampledFrom([]string{"none", "none", "far"}).Draw(t, "callerDeadline")
 		temp := rapid.Bool().Draw(t, "temp")
+		// a stalled peer may still emit stale transport errors (-404) for an earlier
+		// attempt before it goes silent; the client skips them at the first step
+		stale := 0
+		if stall == 1 {
+			stale = rapid.SampledFrom([]int{0, 0, 1, 3}).Draw(t, "stale404")
+		}
 		rapid.SyncTest(t, func(t *rapid.T) {
 			c1, c2 := net.Pipe()
 			defer c1.Close()
 			defer c2.Close()
-			srv := &pbt.ExServer{Conn: c2, Key: tk, Rnd: srnd, StallAt: stall}
+			srv := &pbt.ExServer{Conn: c2, Key: tk, Rnd: srnd, StallAt: stall, Stale404: stale}
 			go func() { _ = srv.Run() }()
 			ctx := context.Background()
 			if deadline == "far" {
@@ -64,7 +70,7 @@ func TestC12(t *testing.T) {
 					stall, started.Sub(t0), time.Since(started), timeout, deadline)
 			}
 		})
-		key := fmt.Sprintf("c=%d s=%d stall=%d timeout=%v deadline=%s temp=%v", cseed, sseed, stall, timeout, deadline, temp)
-		st.Case(key, stall >= 2 || deadline == "none", key, fmt.Sprintf("stall=%d", stall), "deadline="+deadline)
+		key := fmt.Sprintf("c=%d s=%d stall=%d stale404=%d timeout=%v deadline=%s temp=%v", cseed, sseed, stall, stale, timeout, deadline, temp)
+		st.Case(key, stall >= 2 || deadline == "none", key, fmt.Sprintf("stall=%d", stall), "deadline="+deadline, fmt.Sprintf("stale404=%d", stale))
 	})
 }
